@@ -19,7 +19,10 @@ import (
 
 // ErrSpec is the JSON-able description of a Go error value (the model's gerr).
 type ErrSpec struct {
-	Kind   string   `json:"kind"` // std | wire | wrap | http | plain
+	// std | wire | wrap | http | plain, and the values of types of the harness's own (own.go):
+	// own (conforms to ociregistry.Error), ownhttp (to ociregistry.HTTPError, wraps Inner or nil),
+	// ownboth (one value conforming to both), join (errors.Join(errors.New(Msg), Inner))
+	Kind   string   `json:"kind"`
 	Std    string   `json:"std,omitempty"`
 	Code   string   `json:"code,omitempty"`
 	Msg    string   `json:"msg,omitempty"`
@@ -91,13 +94,39 @@ func (s *ErrSpec) build() (error, string) {
 		return ociregistry.NewHTTPError(e, s.Status, nil, nil), fmt.Sprintf("(EHttp %s %s)", hx.Z(int64(s.Status)), t)
 	case "plain":
 		return errors.New(s.Msg), "(EPlain " + pb(s.Msg) + ")"
+	case "own", "ownboth":
+		var detail json.RawMessage
+		dterm := "None"
+		if s.Detail != "" {
+			detail = json.RawMessage(s.Detail)
+			c, _ := canon(detail)
+			dterm = "(Some " + pb(c) + ")"
+		}
+		own := ownError{code: s.Code, msg: s.Msg, detail: detail}
+		w := fmt.Sprintf("(W %s %s %s)", pb(s.Code), pb(s.Msg), dterm)
+		if s.Kind == "own" {
+			return &own, "(EOwn " + w + ")"
+		}
+		return &ownBothError{ownError: own, status: s.Status}, fmt.Sprintf("(EOwnBoth %s %s)", hx.Z(int64(s.Status)), w)
+	case "ownhttp":
+		if s.Inner == nil {
+			return &ownHTTPError{status: s.Status}, fmt.Sprintf("(EOwnHttpNil %s)", hx.Z(int64(s.Status)))
+		}
+		e, t := s.Inner.build()
+		return &ownHTTPError{status: s.Status, inner: e}, fmt.Sprintf("(EOwnHttp %s %s)", hx.Z(int64(s.Status)), t)
+	case "join":
+		// errors.Join(a, b): Error() = a.Error() + "\n" + b.Error(), Unwrap() []error = [a, b],
+		// errors.Is / errors.As try a (uncoded, no status) first, then b: for every observable
+		// the value fmt.Errorf(Msg + "\n%w", b) is
+		e, t := s.Inner.build()
+		return errors.Join(errors.New(s.Msg), e), fmt.Sprintf("(EWrap %s %s)", pb(s.Msg+"\n"), t)
 	}
 	panic("unknown error kind " + s.Kind)
 }
 
 func (s *ErrSpec) shape() string {
 	switch s.Kind {
-	case "wrap", "http":
+	case "wrap", "http", "ownhttp", "join":
 		if s.Inner == nil {
 			return s.Kind + "(nil)"
 		}
@@ -306,7 +335,7 @@ type runner struct {
 	out    *hx.Out
 }
 
-var configTerms = map[string]string{"": "KDefault", "quirks": "KQuirks"}
+var configTerms = map[string]string{"": "KDefault", "quirks": "KQuirks", "auth": "KAuth"}
 
 func (rn *runner) scenario(sc scenario, origin string) {
 	cr := carrierByName(sc.Carrier)
